@@ -375,6 +375,10 @@ class Reject(Exception):
     """a protocol-level / mapped error: the observation is `err <text>`"""
 
 
+class _Plain:
+    """what `gset NAME` assigns to the grid object: any object that is not a property layer"""
+
+
 class Impl:
     """drives real mesa with one scenario; snapshots the observable state after every line and
     evaluates the property's clauses on consecutive snapshots"""
@@ -397,6 +401,7 @@ class Impl:
             self.layers = []
         self.handles, self.masks, self.agents, self.where = {}, {}, {}, {}
         self.tainted = False  # the user wrote to / removed the built-in emptiness layer
+        self.gset_names = set()  # names the scenario assigned on the grid object itself (`gset`)
         self.bad, self.tags = [], set()
         self.prev = self.snapshot()
 
@@ -503,6 +508,9 @@ class Impl:
             else:
                 views[name] = tuple(self.canon(dt, l.data[c]) for c in self.cells)
         snap["attached"], snap["views"] = att, views
+        # the third view: grid.<name> is the layer object itself (new: HasPropertyLayers.__getattr__)
+        snap["gattr"] = ({name: getattr(self.grid, name, None) is l for name, l in self.attached().items()}
+                         if self.kind == "new" else {})
         if self.kind == "new":
             try:
                 snap["actual"] = tuple(int(self.grid[c].is_empty) for c in self.cells)
@@ -856,8 +864,19 @@ class Impl:
                 raise Reject("Attr") from None
             except KeyError:
                 raise Reject("Key") from None
+            if new and not isinstance(layer, self.M["NewLayer"]):
+                raise Reject("Shadowed")  # an attribute the scenario itself gave the grid object
             dt = self.dt_of(layer)
             return "ok arr=" + ",".join(map(str, self.canon_arr(dt, layer.data)))
+        if k == "gset":
+            if not new:
+                raise Reject("Impl")
+            try:
+                setattr(self.grid, w[1], _Plain())  # HasPropertyLayers.__setattr__
+            except AttributeError:
+                raise Reject("Attr") from None
+            self.gset_names.add(w[1])
+            return "ok"
         if k == "lsel":
             layer, dt = self.layer(int(w[1]))
             p = self.pred(dt, w[2])
@@ -873,11 +892,8 @@ class Impl:
             return self.agent_op(k, w)
         if k == "empties":
             if new:
-                try:
-                    e = self.grid.empty
-                    view = ",".join(map(str, self.canon_arr(self.dt_of(e), np.asarray(e.data))))
-                except AttributeError:
-                    view = "none"
+                e = self.named("empty")  # (the attribute path grid.<name> is read by `dumpn`)
+                view = "none" if e is None else ",".join(map(str, self.canon_arr(self.dt_of(e), np.asarray(e.data))))
                 actual = "".join(str(int(self.grid[c].is_empty)) for c in self.cells)
             else:
                 view = ",".join(map(str, self.canon_arr("bool", self.grid.empty_mask)))
@@ -1022,6 +1038,16 @@ class Impl:
         for name, lid in new["attached"].items():
             if new["views"][name] != new["layers"][lid]:
                 self.fail("views", f"cell view of {name!r} {new['views'][name]} != layer data {new['layers'][lid]} after {' '.join(w)}")
+        # (1b) grid.<name> is the attached layer, unless the scenario itself gave the grid an attribute of that name
+        # before; such an assignment is refused exactly while a layer of that name is attached
+        for name, same in new["gattr"].items():
+            if not same and name not in self.gset_names:
+                self.fail("grid-attr", f"grid.{name} is not the attached layer after {' '.join(w)}")
+        if k == "gset" and self.kind == "new":
+            if ok and w[1] in old["attached"]:
+                self.fail("grid-attr", f"{' '.join(w)} replaced the attribute of an attached layer")
+            if out == "err Attr" and w[1] not in old["attached"]:
+                self.fail("grid-attr", f"{' '.join(w)} refused although no layer of that name is attached")
         # (2) emptiness layer / mask = actual emptiness = where the agents are
         occ = tuple(int(all(p != c for p in new["where"].values())) for c in self.cells)
         if new["actual"] != occ:
@@ -1359,12 +1385,14 @@ class Gen:
         return list(CLASH_NAMES)
 
     # ops ------------------------------------------------------------------------------
-    def op_create(self):
+    def op_create(self, force_name=None):
         R = self.R
         pool = list(GOOD_NAMES)
         r = R.random()
         bad = 0.45 if self.rejecting else 0.1
-        if r < bad:
+        if force_name is not None:
+            name = force_name
+        elif r < bad:
             name = R.choice(self.clash_pool() + ["empty"] + self.attached_names()[:2] if self.kind == "new"
                             else (self.attached_names() or pool))
         else:
@@ -1391,6 +1419,21 @@ class Gen:
         ok = name not in self.attached_names() and not (self.kind == "new" and (name in self.all_clash))
         if ok:
             self.layers.append(dict(name=name, dtype=dt, dims=self.dims, att=True))
+
+    def op_gset(self):
+        """grid.NAME = <object>: refused while a layer of that name is attached; before that it shadows the layer"""
+        R = self.R
+        names = self.attached_names()
+        if names and R.random() < 0.6:
+            name = R.choice(names)
+        else:
+            name = R.choice(GOOD_NAMES)
+        self.emit(f"gset {name}")
+        if self.kind == "new" and name not in names and R.random() < 0.5:
+            # the code's own caveat: an attribute given to the grid before the layer exists is not protected
+            self.op_create(force_name=name)
+            self.emit(f"dumpn {name}")
+            self.emit(f"cget {name} {fmt_coord(self.coord(self.dims, oob=0))}")
 
     def op_attach(self):
         cands = [i for i, l in enumerate(self.layers) if not l["att"]]
@@ -1716,6 +1759,7 @@ def gen_scenario(R, kind=None, rejecting=False, n_ops=None):
         (g.op_create, 4), (g.op_attach, 4), (g.op_detach, 4), (g.op_lset, 8), (g.op_lget, 4), (g.op_cset, 9),
         (g.op_cget, 7), (g.op_setcells, 8), (g.op_modify, 10), (g.op_modcell, 3), (g.op_handle, 8), (g.op_read, 7),
         (g.op_agent, 14), (g.op_empties, 3), (g.op_select, 14), (g.op_nbmask, 4), (g.op_cell2, 4), (g.op_shift, 2), (g.op_setfrom, 5),
+        (g.op_gset, 2),
     ]
     if rejecting:
         table = [(f, w * (3 if f in (g.op_create, g.op_attach, g.op_detach) else 1)) for f, w in table]
